@@ -38,3 +38,15 @@ func verifGate(point string, fn jtypes.Callable, ctx reflect.Value) {
 	}
 	VerifGate(point, name, v)
 }
+
+// VerifOnEval, when set, is called at the start of every Expr.Eval with
+// the expression and the value it is given. The external verification
+// harness uses it to collect the (program, input) pairs that the
+// package's own tests evaluate.
+var VerifOnEval func(e *Expr, data interface{})
+
+func verifEval(e *Expr, data interface{}) {
+	if VerifOnEval != nil {
+		VerifOnEval(e, data)
+	}
+}
